@@ -66,7 +66,7 @@ PGItemW(r, i) ==
         lp == r.lp
         lc == r.lc
     IN  /\ PreCeilShr(x, lp) => (~Crashed(r.p_up[i]) /\ PostCeilShr(x, lp, r.p_up[i]))
-        /\ PreCeilShr(x, lc) => (~Crashed(r.c_up[i]) /\ PostCeilShr(x, lc, r.c_up[i]))
+        /\ PreCeilShrStrict(x, lc) => (~Crashed(r.c_up[i]) /\ PostCeilShr(x, lc, r.c_up[i]))
         /\ ~Crashed(r.pad[i]) /\ PostAlignDown(x, lp, r.pad[i])
         /\ BoolOf(r.ipa[i]) <=> IsMultL(x, lp)
         /\ BoolOf(r.iaa[i]) <=> IsMultL(x, r.lw)
